@@ -406,10 +406,10 @@ def gen_cases(tier, seed):
             cases.append(('P ' + f, f'exh{n}'))
     # a seeded sample of the next size
     nxt = forms_of_size(bound + 1, memo, ATOMS3)
-    k = 300 if tier == 'quick' else 6000
+    k = 300 if tier == 'quick' else 5000
     for f in rng.sample(nxt, min(k, len(nxt))):
         cases.append(('P ' + f, f'smp{bound + 1}'))
-    nrand = 450 if tier == 'quick' else 8000
+    nrand = 450 if tier == 'quick' else 7000
     for _ in range(nrand):
         nv = rng.choice([2, 3, 3, 4, 4])
         d = rng.choice([2, 3, 3, 4])
@@ -419,7 +419,7 @@ def gen_cases(tier, seed):
         cases.append(('N ' + rand_cf(rng, rng.randrange(1, 5), rng.choice(['or', 'or', 'or', 'any'])), 'stageN'))
         cases.append(('C ' + rand_cf(rng, rng.randrange(1, 4), rng.choice(['nnf', 'nnf', 'nnf', 'any'])), 'stageC'))
         cases.append(('L ' + rand_cf(rng, rng.randrange(1, 5), rng.choice(['cnf', 'cnf', 'cnf', 'nnf', 'any'])), 'stageL'))
-    nres = 600 if tier == 'quick' else 12000
+    nres = 600 if tier == 'quick' else 10000
     for _ in range(nres):
         nv = rng.choice([2, 3, 3, 4])
         if rng.random() < 0.5:
